@@ -11,7 +11,7 @@ from jv.props import common as C
 
 ID = "C05"
 LEVEL = "exploration"
-BUDGET = {"quick": 2400, "thorough": 40000}
+BUDGET = {"quick": 4000, "thorough": 48000}
 RULE = (
     "case = generated scenario x schedule x up to 3 user commands (try-submit-jobs / show-status -n) fired by the "
     "schedule at arbitrary moments x recovery style (try-submit-jobs or show-status -n) x up to 2 commands after "
